@@ -16,7 +16,17 @@ theorem pieces_exact (k B : Nat) (hk : 1 ≤ k) (hk2 : k ≤ 2 ^ 50) (hB : 1 ≤
   simp only [Int.toNat_natCast]
   rw [piecesRound_exact k B hk hk2 hB]
 
+/-- the same for a request written with any decimal precision (`a/b`, e.g. thousandths as in the
+    harness) that is expressible at the share base (`a·B = k·b`) -/
+theorem pieces_exact_decimal (a b k B : Nat) (hb : 0 < b) (hk : 1 ≤ k) (hk2 : k ≤ 2 ^ 50) (hB : 1 ≤ B)
+    (hab : a * B = k * b) :
+    piecesRequest { bind := true, cpuNum := a, cpuDen := b, mem := 0 } (B : Int) = (k : Int) := by
+  unfold piecesRequest
+  simp only [Int.toNat_natCast]
+  rw [piecesRound_exact' a b B k hb hk hk2 hB hab]
+
 example : piecesRequest { bind := true, cpuNum := 29, cpuDen := 100, mem := 0 } 100 = 29 := by decide
+example : piecesRequest { bind := true, cpuNum := 290, cpuDen := 1000, mem := 0 } 100 = 29 := by decide
 
 /-- the conversion before the repair (`int(cpuRequest * float64(shareBase))`) loses a piece:
     0.29 cores at share base 100 → 28 (and 0.57 → 56, 1.15 → 114). -/
